@@ -610,6 +610,9 @@ func main() {
 		escCase([]byte{byte(c)})
 		escCase([]byte{'\\', byte(c)})
 		escCase([]byte{'\\', '1', byte(c)})
+		escCase([]byte{'\\', '1', '2', byte(c)})
+		escCase([]byte{'\\', '7', '7', '7', byte(c)})
+		escCase([]byte{'\\', '4', '0', byte(c), '1', '\\', '5'})
 		escCase([]byte{'\\', '\r', byte(c), 'x'})
 		escCase([]byte{0xFE, 0xFF, 0x00, byte(c)})
 		escCase([]byte{0xFE, 0xFF, '\\', byte(c), 0x00})
